@@ -182,6 +182,8 @@ def plan(tier, seed):
     p.append(("roundtrip", dict(skeleton="T5", save_calc=False, args={"type1": "on-premise", "type2": "serverless", "fixed1": 5})))
     p.append(("roundtrip", dict(skeleton="T1", save_calc=False, old_version=True)))
     p.append(("roundtrip", dict(skeleton="T1e", save_calc=False)))
+    p.append(("roundtrip", dict(skeleton="TX", save_calc=False)))
+    p.append(("roundtrip", dict(skeleton="TX", save_calc=True, args={"shared": True})))
     p.append(("roundtrip", dict(skeleton="T1", save_calc=False, custom_sources=True)))
     p.append(("roundtrip", dict(skeleton="T9", save_calc=True, custom_sources=True)))
     p.append(("roundtrip", dict(skeleton="T1e", save_calc=True, post_edit=dict(k="list_op", obj="step_empty", attr="jobs", op="append", args=["job"]))))
